@@ -180,6 +180,197 @@ theorem leaveLoop_stops (depth : Nat) :
         · rw [if_neg h3] at h
           exact ih _ _ c' m' h hex
 
+/-! ## 3b. A stop / abort that arrives while a stepping action executes -/
+
+/-- the instruction at which the controller has its turn leaves the request stored -/
+theorem doOneI_fired (inj : Option Nat) (c : Ctx) (m : M) (h : (doOneI true inj c m).2.2 = true) :
+    (doOneI true inj c m).1.2.1.exitReq = true := by
+  unfold doOneI at h ⊢
+  match inj with
+  | none => simp at h
+  | some 0 =>
+    by_cases he : ((doOne c m).2.2 == .empty) = true
+    · simp [he] at h
+    · simp [he]
+  | some (k + 1) =>
+    by_cases he : ((doOne c m).2.2 == .empty) = true <;> simp [he] at h
+
+theorem lineLoopI_fired (lineOf : Ctx → Option Nat) :
+    ∀ (fuel : Nat) (ln : Option Nat) (inj : Option Nat) (c : Ctx) (m : M),
+      (lineLoopI lineOf true ln fuel inj false c m).2.2 = true →
+      (lineLoopI lineOf true ln fuel inj false c m).1.2.1.exitReq = true := by
+  intro fuel
+  induction fuel with
+  | zero => intro ln inj c m h; simp [lineLoopI] at h
+  | succ fuel ih =>
+    intro ln inj c m h
+    rw [lineLoopI] at h ⊢
+    simp only [Bool.false_or] at h ⊢
+    by_cases h1 : (doOneI true inj c m).1.2.2 ≠ .ok
+    · rw [if_pos h1] at h ⊢; exact doOneI_fired inj c m h
+    · rw [if_neg h1] at h ⊢
+      by_cases h2 : (doOneI true inj c m).1.2.1.exitReq = true
+      · rw [if_pos h2]; exact h2
+      · rw [if_neg h2] at h ⊢
+        have hf : (doOneI true inj c m).2.2 = false := by
+          cases hf : (doOneI true inj c m).2.2 with
+          | false => rfl
+          | true => exact absurd (doOneI_fired inj c m hf) h2
+        rw [hf] at h ⊢
+        by_cases h3 : sameLine ln (lineOf (doOneI true inj c m).1.1) = true
+        · rw [if_pos h3] at h ⊢; exact ih _ _ _ _ h
+        · rw [if_neg h3] at h; simp at h
+
+theorem leaveLoopI_fired (depth : Nat) :
+    ∀ (fuel : Nat) (inj : Option Nat) (c : Ctx) (m : M),
+      (leaveLoopI true depth fuel inj false c m).2.2 = true →
+      (leaveLoopI true depth fuel inj false c m).1.2.1.exitReq = true := by
+  intro fuel
+  induction fuel with
+  | zero => intro inj c m h; simp [leaveLoopI] at h
+  | succ fuel ih =>
+    intro inj c m h
+    rw [leaveLoopI] at h ⊢
+    simp only [Bool.false_or] at h ⊢
+    by_cases h1 : (doOneI true inj c m).1.2.2 ≠ .ok
+    · rw [if_pos h1] at h ⊢; exact doOneI_fired inj c m h
+    · rw [if_neg h1] at h ⊢
+      by_cases h2 : (doOneI true inj c m).1.2.1.exitReq = true
+      · rw [if_pos h2]; exact h2
+      · rw [if_neg h2] at h ⊢
+        have hf : (doOneI true inj c m).2.2 = false := by
+          cases hf : (doOneI true inj c m).2.2 with
+          | false => rfl
+          | true => exact absurd (doOneI_fired inj c m hf) h2
+        rw [hf] at h ⊢
+        by_cases h3 : (doOneI true inj c m).1.1.frames.length ≤ depth
+        · rw [if_pos h3] at h; simp at h
+        · rw [if_neg h3] at h ⊢; exact ih _ _ _ h
+
+/-- **a stop / abort accepted while an assembly step, a line step or a leave scope executes ends that action with
+the VM empty**: whatever the action, the instruction boundary and the program, the action during which the controller
+had its turn reports the state `empty` and leaves no script, stepped or spawned. (The seeded change that mapped the
+result to a state after discarding the scripts, and the stale active context `leave_scope` left behind, both break the
+correspondence with this model; this theorem is what the model then promises.) -/
+theorem C19_stop_while_stepping (lineOf : Ctx → Option Nat) (r : Rt) (inj : Option Nat) (fuel : Nat) (a : Action)
+    (o : (Rt × Res) × Option Nat × Bool) (h : execI lineOf true r inj fuel a = some o) (hf : o.2.2 = true) :
+    o.1.1.state = .empty ∧ o.1.1.ctx = none ∧ o.1.1.m.spawned = [] := by
+  cases a with
+  | start =>
+    unfold execI at h
+    cases inj with
+    | none => simp at h; rw [← h] at hf; simp at hf
+    | some k =>
+      cases hc : r.ctx with
+      | none => simp [hc] at h; rw [← h] at hf; simp at hf
+      | some c =>
+        simp only [hc] at h
+        split at h
+        · cases h
+        · split at h
+          · simp only [Option.some.injEq] at h; rw [← h] at hf; simp at hf
+          · split at h
+            · simp only [Option.some.injEq] at h; rw [← h] at hf; simp at hf
+            · split at h
+              · simp only [Option.some.injEq] at h; subst h; simp [finish]
+              · simp only [if_true, Option.some.injEq] at h; subst h; simp
+  | stop => simp [execI] at h; rw [← h] at hf; simp at hf
+  | abort => simp [execI] at h; rw [← h] at hf; simp at hf
+  | assemblyStep =>
+    unfold execI at h
+    cases hc : r.ctx with
+    | none => simp [hc] at h; rw [← h] at hf; simp at hf
+    | some c =>
+      simp only [hc, Option.some.injEq] at h
+      subst h
+      have hx := doOneI_fired inj c (begin r.m) hf
+      simp [finish, hx]
+  | lineStep =>
+    unfold execI at h
+    cases hc : r.ctx with
+    | none => simp [hc] at h; rw [← h] at hf; simp at hf
+    | some c =>
+      simp only [hc, Option.some.injEq] at h
+      subst h
+      have hx := lineLoopI_fired lineOf fuel (lineOf c) inj c (begin r.m) hf
+      simp [finish, hx]
+  | leaveScope =>
+    unfold execI at h
+    cases hc : r.ctx with
+    | none => simp [hc] at h; rw [← h] at hf; simp at hf
+    | some c =>
+      simp only [hc, Option.some.injEq] at h
+      subst h
+      have hx := leaveLoopI_fired (c.frames.length - 1) fuel inj c (begin r.m) hf
+      simp [finish, hx]
+
+/-- without a controller the injected executor is the plain one -/
+theorem doOneI_none (req : Bool) (c : Ctx) (m : M) : doOneI req none c m = (doOne c m, none, false) := rfl
+
+theorem lineLoopI_none (lineOf : Ctx → Option Nat) (req : Bool) :
+    ∀ (fuel : Nat) (ln : Option Nat) (c : Ctx) (m : M),
+      lineLoopI lineOf req ln fuel none false c m = (lineLoop lineOf ln fuel c m, none, false) := by
+  intro fuel
+  induction fuel with
+  | zero => intro ln c m; simp [lineLoopI, lineLoop]
+  | succ fuel ih =>
+    intro ln c m
+    rw [lineLoopI, lineLoop]
+    simp only [doOneI_none, Bool.or_false]
+    by_cases h1 : (doOne c m).2.2 ≠ .ok
+    · rw [if_pos h1, if_pos h1]
+    · rw [if_neg h1, if_neg h1]
+      by_cases h2 : (doOne c m).2.1.exitReq = true
+      · rw [if_pos h2, if_pos h2]
+      · rw [if_neg h2, if_neg h2]
+        by_cases h3 : sameLine ln (lineOf (doOne c m).1) = true
+        · rw [if_pos h3, if_pos h3]; exact ih _ _ _
+        · rw [if_neg h3, if_neg h3]
+
+theorem leaveLoopI_none (req : Bool) (depth : Nat) :
+    ∀ (fuel : Nat) (c : Ctx) (m : M),
+      leaveLoopI req depth fuel none false c m = (leaveLoop depth fuel c m, none, false) := by
+  intro fuel
+  induction fuel with
+  | zero => intro c m; simp [leaveLoopI, leaveLoop]
+  | succ fuel ih =>
+    intro c m
+    rw [leaveLoopI, leaveLoop]
+    simp only [doOneI_none, Bool.or_false]
+    by_cases h1 : (doOne c m).2.2 ≠ .ok
+    · rw [if_pos h1, if_pos h1]
+    · rw [if_neg h1, if_neg h1]
+      by_cases h2 : (doOne c m).2.1.exitReq = true
+      · rw [if_pos h2, if_pos h2]
+      · rw [if_neg h2, if_neg h2]
+        by_cases h3 : (doOne c m).1.frames.length ≤ depth
+        · rw [if_pos h3, if_pos h3]
+        · rw [if_neg h3, if_neg h3]; exact ih _ _
+
+/-- **once the controller has had its turn (or when there is none) the history goes on as the sequential model
+says**: `execI` without a pending controller is `exec` -/
+theorem C19_injected_refines_exec (lineOf : Ctx → Option Nat) (req : Bool) (r : Rt) (a : Action) :
+    execI lineOf req r none 100000 a = some (exec lineOf r a, none, false) := by
+  cases a with
+  | start => simp [execI, exec]
+  | stop => simp [execI, exec]
+  | abort => simp [execI, exec]
+  | assemblyStep =>
+    unfold execI exec assemblyStep
+    cases r.ctx <;> simp [doOneI_none]
+  | lineStep =>
+    unfold execI exec lineStep
+    cases r.ctx <;> simp [lineLoopI_none]
+  | leaveScope =>
+    unfold execI exec leaveScope
+    cases r.ctx <;> simp [leaveLoopI_none]
+
+/-- the premises of `C19_stop_while_stepping` are met: a one-instruction history in which the controller has its turn -/
+example : ∃ o, execI (fun _ => none) true { ctx := some { frames := [{ code := [.push (.num ⟨false, 1, 0⟩), .push (.num ⟨false, 2, 0⟩)] }], id := 1 } }
+    (some 0) 10 .assemblyStep = some o ∧ o.2.2 = true := by
+  refine ⟨_, rfl, ?_⟩
+  decide
+
 /-! ## 3. Threads: mutual exclusion, bounded effect of stop/abort, progress -/
 
 open Conc
